@@ -88,13 +88,48 @@ fn hw(p: &[&str]) -> Option<String> {
     })
 }
 
+/// The float-to-Uint conversions recurse (`try_from(|value|)`, `try_from(value % modulus)`); an edit that
+/// breaks the recursion's progress makes them spin forever. Those ops therefore run on a helper thread
+/// with a time limit: the outcome is `timeout` (compared like any other outcome). A stuck thread cannot be
+/// stopped, so after a few of them the remaining conversion cases report `timeout` at once.
+fn with_limit(p: &[&str], f: fn(&[&str]) -> String) -> String {
+    use std::sync::atomic::{AtomicUsize, Ordering};
+    static STUCK: AtomicUsize = AtomicUsize::new(0);
+    if STUCK.load(Ordering::SeqCst) >= 3 {
+        return "timeout".into();
+    }
+    let owned: Vec<String> = p.iter().map(|s| s.to_string()).collect();
+    let (tx, rx) = std::sync::mpsc::channel();
+    std::thread::spawn(move || {
+        let refs: Vec<&str> = owned.iter().map(|s| s.as_str()).collect();
+        let r = std::panic::catch_unwind(|| f(&refs)).unwrap_or_else(|_| "panic".to_string());
+        let _ = tx.send(r);
+    });
+    match rx.recv_timeout(std::time::Duration::from_secs(3)) {
+        Ok(r) => r,
+        Err(_) => {
+            STUCK.fetch_add(1, Ordering::SeqCst);
+            "timeout".into()
+        }
+    }
+}
+
+fn dispatch(p: &[&str]) -> String {
+    let bits: usize = p[1].parse().unwrap();
+    dispatch_bits!(bits, run, (p), [0, 1, 2, 7, 8, 12, 24, 25, 32, 52, 53, 54, 63, 64, 65, 127, 128, 129,
+            256, 512, 1023, 1024, 1025, 1087, 1088, 1100, 2048, 4096])
+}
+
 fn main() {
     run_lines(|p| {
         if let Some(r) = hw(p) {
             return r;
         }
-        let bits: usize = p[1].parse().unwrap();
-        dispatch_bits!(bits, run, (p), [0, 1, 2, 7, 8, 12, 24, 25, 32, 52, 53, 54, 63, 64, 65, 127, 128, 129,
-            256, 512, 1023, 1024, 1025, 1087, 1088, 1100, 2048, 4096])
+        match p[0] {
+            "tryf64" | "tryf32" | "satf64" | "satf32" | "wrapf64" | "wrapf32" | "fromf64" | "fromf32" => {
+                with_limit(p, dispatch)
+            }
+            _ => dispatch(p),
+        }
     });
 }
